@@ -175,6 +175,110 @@ class BodyView:
                     out.append((self.switch_atom(s), self.label_values(s, label), s))
         return out
 
+    def guards_ext(self, block, depth=0):
+        """guards(block) plus the guards carried by the *construction* of a tested value: when a dominating switch admits only variants S of a
+        value whose every origin is an aggregate `V(..)` built in this body (seen through `?` / Try::branch), the path came through one of the
+        sites that build a variant in S, so whatever dominates all of those sites holds as well.
+        (`let Some(x) = helper() else ..` / `helper()?` where the inlined helper builds Some/Ok only after its own test.)"""
+        import re
+        base = self.guards(block)
+        out = list(base)
+        if depth > 3:
+            return out
+        RENAME = {'Continue': ('Ok', 'Some'), 'Break': ('Err', 'None')}
+        for atom, vals, s in base:
+            t = self.b.blocks[s]['term']
+            # (1) a bool local tested as a value (`let both = !a && !b; if both {..}`, `matches!(..)`, an expanded predicate closure): the edge fixes its
+            #     truth value, so the definition that ran is one that can produce that value; what holds at all of those definitions holds here, and a
+            #     single remaining definition `x` / `!x` fixes x as well
+            d = t['discr']
+            if t.get('discr_ty') == 'bool' and d.get('o') in ('copy', 'move') and not d['p']['proj'] and vals in ({True}, {False}):
+                for g in self._bool_local_facts(d['p']['l'], next(iter(vals)), depth):
+                    if g not in out:
+                        out.append(g)
+            for o in self.pv.origins_operand(t['discr']):
+                o = strip_casts(o)
+                if o[0] != 'discr':
+                    continue
+                l, pr = o[1]
+                want = {x for x in vals if isinstance(x, str)}
+                srcs = self.pv.peel(self.pv._origins(l, pr, frozenset()))
+                for _ in range(3):
+                    nxt, changed = set(), False
+                    for x in srcs:
+                        x = strip_casts(x)
+                        if x[0] == 'call' and not x[2] and re.search(r'Try>?::branch$', callee_path(self.pv.call_term(x)) or ''):
+                            nxt |= self.pv.peel(self.pv.origins_operand(self.pv.call_term(x)['args'][0]))
+                            want = {y for v_ in want for y in RENAME.get(v_, (v_,))}
+                            changed = True
+                        else:
+                            nxt.add(x)
+                    srcs = nxt
+                    if not changed:
+                        break
+                def variants_of(x):
+                    if x[0] == 'agg' and not x[2] and self.pv.agg_rvalue(x).get('vname'):
+                        return {self.pv.agg_rvalue(x)['vname']}
+                    if x[0] == 'call' and not x[2] and re.search(r'FromResidual.*::from_residual$', callee_path(self.pv.call_term(x)) or ''):
+                        return {'Err', 'None', 'Break'}          # `?` in the producer: a residual is never the positive variant
+                    return None
+                if not srcs or not all(variants_of(x) for x in srcs):
+                    continue
+                sel = [x for x in srcs if variants_of(x) & want]
+                if not sel or len(sel) == len(srcs):
+                    continue
+                common = None
+                for x in sel:
+                    gs = {(a, frozenset(v_), s_) for a, v_, s_ in self.guards_ext(x[1][0], depth + 1)}
+                    common = gs if common is None else (common & gs)
+                for a, v_, s_ in sorted(common or (), key=str):
+                    if (a, set(v_), s_) not in out:
+                        out.append((a, set(v_), s_))
+        return out
+
+    def _bool_local_facts(self, l, value, depth, hops=0):
+        """guards implied by `local l == value` (see guards_ext)"""
+        if l <= self.b.arg_count or hops > 4:
+            return []
+        # never borrowed / partially written
+        for blk in self.b.blocks:
+            for st in blk['stmts']:
+                if st['s'] == 'assign' and st['rv']['r'] in ('ref', 'rawptr') and st['rv'].get('p', {}).get('l') == l:
+                    return []
+        defs = []
+        for (proj, kind, bi, si, payload) in self.pv.defs.get(l, []):
+            if proj != ():
+                return []
+            defs.append((kind, bi, si, payload))
+        cands = []
+        for (kind, bi, si, payload) in defs:
+            if kind == 'rv' and payload['r'] == 'use' and payload['op']['o'] == 'const' and isinstance(payload['op'].get('int'), int):
+                if bool(payload['op']['int']) != value:
+                    continue          # this definition cannot produce the tested value
+            cands.append((kind, bi, si, payload))
+        if not cands or len(cands) == len(defs) and len(defs) > 1 and all(k == 'rv' and p_['r'] == 'use' and p_['op']['o'] == 'const' for k, _b, _s, p_ in cands):
+            pass
+        out = []
+        common = None
+        for (kind, bi, si, payload) in cands:
+            gs = {(a, frozenset(v_), s_) for a, v_, s_ in self.guards_ext(bi, depth + 1)}
+            common = gs if common is None else (common & gs)
+        for a, v_, s_ in sorted(common or (), key=str):
+            out.append((a, set(v_), s_))
+        if len(cands) == 1 and cands[0][0] == 'rv':
+            kind, bi, si, rv = cands[0]
+            if rv['r'] == 'use' and rv['op']['o'] in ('copy', 'move'):
+                op = rv['op']
+                out.append((self.describe_operand(op), {value}, ('def', bi, si)))
+                if not op['p']['proj']:
+                    out += self._bool_local_facts(op['p']['l'], value, depth, hops + 1)
+            elif rv['r'] == 'unop' and rv['op'] == 'Not' and rv['a']['o'] in ('copy', 'move'):
+                op = rv['a']
+                out.append((self.describe_operand(op), {not value}, ('def', bi, si)))
+                if not op['p']['proj']:
+                    out += self._bool_local_facts(op['p']['l'], not value, depth, hops + 1)
+        return out
+
     def guarded_by(self, block, atom_pred, value):
         for atom, vals, s in self.guards(block):
             if atom_pred(atom) and vals == {value}:
